@@ -973,6 +973,10 @@ func (s *c2Sweeper) sweepChunk(cfg c2Config, variant int, inst string, restartFi
 			rp.w.writeInst(in, o.Child, 5, "put")
 			rp.w.writeInst(in, o.Child, 5, "del")
 			must(rp.w.n.Idle(), "idle after master-child writes")
+			// ... and a restart after that later history: state rebuilt at start-up (mapping caches, in-memory
+			// databases) is rebuilt with the descendants' writes present and must still answer the committed
+			// versions as before
+			must(rp.w.n.RestartWith(part%2 == 0, func(c *node.Config) {}), "restart after the later history")
 		}
 	}
 	if !exc {
